@@ -777,6 +777,95 @@ fn eval_absurd(ctx: &Ctx, case: &AbsurdCase) -> Verdict {
 }
 
 // ---------------------------------------------------------------------------------------------
+// size sweep across table / buffer edges, and BCF records contradicting their header
+
+#[derive(Clone, Debug, Serialize, Deserialize)]
+pub struct SizeCase {
+    /// entries of a one-axis spectrum (chromosomes + 1), or samples of a call set when `callset`
+    pub size: usize,
+    pub callset: bool,
+}
+
+fn eval_size(ctx: &Ctx, case: &SizeCase) -> Verdict {
+    let dir = ctx.worker_dir(crate::engine::worker_id());
+    let mut pass = Pass::new();
+    let mut cmds: Vec<Vec<String>> = Vec::new();
+    if case.callset {
+        let n = case.size;
+        let rec = |pos: u64, k: usize| crate::gen::callset::Record {
+            pos,
+            gts: (0..n).map(|i| if (i + k) % 9 == 0 { crate::gen::callset::Gt::diploid(None, None, false) } else { crate::gen::callset::Gt::diploid(Some((i % 2) as u8), Some(((i / 2 + k) % 2) as u8), false) }).collect(),
+            ..crate::props::c10::fresh_record(n)
+        };
+        let cs = CallSet {
+            contigs: vec!["ctgS7".into()],
+            samples: (0..n).map(|i| format!("smp{i}")).collect(),
+            records: vec![rec(1, 0), rec(2, 1), rec(3, 4)],
+        };
+        std::fs::write(dir.join("size.vcf"), cs.to_vcf()).expect("write");
+        for p in [1usize, n / 4, n / 2, n.saturating_sub(1).max(1), n] {
+            cmds.push(vec!["create".into(), "-p".into(), p.to_string(), "size.vcf".into()]);
+        }
+        cmds.push(vec!["create".into(), "size.vcf".into()]);
+    } else {
+        let n = case.size;
+        let spec = Spec::new(vec![n], (0..n).map(|i| ((i * 7 + 3) % 11) as f64).collect());
+        write_spectrum(&dir, "size.sfs", &spec, false);
+        cmds.push(vec!["stat".into(), "-s".into(), "pi,theta,d-tajima,d-fu-li,s,sum".into(), "size.sfs".into()]);
+        for t in [1usize, 2, n / 3 + 1, n / 2 + 1, n - 1, n] {
+            cmds.push(vec!["view".into(), "--project-shape".into(), t.max(1).to_string(), "size.sfs".into()]);
+        }
+        cmds.push(vec!["fold".into(), "size.sfs".into()]);
+    }
+    for c in cmds {
+        let run = cli::sfs(ctx, &c, Input::Null, &dir);
+        let ex = judge(ctx, &run, &format!("`sfs {}` at size {} ({})", c.join(" "), case.size, if case.callset { "samples" } else { "entries of a one-axis spectrum" }))?;
+        finish(&mut pass, ex, &run);
+    }
+    Ok(pass)
+}
+
+#[derive(Clone, Debug, Serialize, Deserialize)]
+pub struct BcfMismatchCase {
+    pub header_samples: usize,
+    pub record_samples: usize,
+    pub bgzf: bool,
+}
+
+fn eval_bcf_mismatch(ctx: &Ctx, case: &BcfMismatchCase) -> Verdict {
+    let dir = ctx.worker_dir(crate::engine::worker_id());
+    let make = |n: usize| CallSet {
+        contigs: vec!["ctgM7".into(), "ctgN8".into()],
+        samples: (0..n).map(|i| format!("smp{i}")).collect(),
+        records: (0..4u64).map(|k| crate::gen::callset::Record { contig: (k / 2) as usize, pos: 5 + k, fmt_dp: k % 2 == 0, ..crate::props::c10::fresh_record(n) }).collect(),
+    };
+    let header_cs = make(case.header_samples);
+    let record_cs = make(case.record_samples);
+    // header of one call set, internally consistent records of another
+    let mut bytes = b"BCF\x02\x02".to_vec();
+    let text = crate::gen::bcf::header_text(&header_cs);
+    bytes.extend(((text.len() + 1) as u32).to_le_bytes());
+    bytes.extend(text.as_bytes());
+    bytes.push(0);
+    for r in &record_cs.records {
+        bytes.extend(crate::gen::bcf::record_bytes(&record_cs, r));
+    }
+    if case.bgzf {
+        bytes = crate::gen::bgzf::compress(&bytes, &Layout::plain()).0;
+    }
+    std::fs::write(dir.join("mismatch.bcf"), &bytes).expect("write");
+    let mut pass = Pass::new();
+    for c in [vec!["create"], vec!["create", "-s", "smp0"], vec!["create", "--strict"], vec!["create", "-p", "1"], vec!["create", "-s", "smp0=A,smp1=B"], vec!["create", "-t", "1", "-vv"]] {
+        let mut argv: Vec<String> = c.iter().map(|s| s.to_string()).collect();
+        argv.push("mismatch.bcf".into());
+        let run = cli::sfs(ctx, &argv, Input::Null, &dir);
+        let ex = judge(ctx, &run, &format!("`sfs {}` on a BCF whose header names {} samples while every record carries {}", argv.join(" "), case.header_samples, case.record_samples))?;
+        finish(&mut pass, ex, &run);
+    }
+    Ok(pass)
+}
+
+// ---------------------------------------------------------------------------------------------
 // raw saved inputs (regressions found by surveys, thorough runs and fuzz campaigns)
 
 #[derive(Clone, Debug, Serialize, Deserialize)]
@@ -850,6 +939,39 @@ pub fn check(ctx: &Ctx) -> Check {
             exhaustive: true,
             cases: Box::new(|_| tiny_cases()),
             eval: Box::new(eval_tiny),
+        }),
+        Box::new(EnumPart {
+            name: "size-sweep",
+            rule: "one-axis spectra with 160..180, 254..259, 339..344, 1022..1034 entries through stat (pi, theta, both D), every projection size class and fold; call sets of 84..90 and 170..174 samples through create with and without projection: sizes that cross the factorial table, f64 binomial overflow and power-of-two edges",
+            exhaustive: true,
+            cases: Box::new(|_| {
+                let mut v = Vec::new();
+                for n in (160..=180).chain(254..=259).chain(339..=344).chain(1022..=1034) {
+                    v.push(SizeCase { size: n, callset: false });
+                }
+                for n in (84..=90).chain(170..=174) {
+                    v.push(SizeCase { size: n, callset: true });
+                }
+                v
+            }),
+            eval: Box::new(eval_size),
+        }),
+        Box::new(EnumPart {
+            name: "bcf-header-record-mismatch",
+            rule: "BCF streams (raw and BGZF) whose records are internally consistent but carry more or fewer samples than the header declares (0..6 vs 1..4), through 6 create command lines",
+            exhaustive: true,
+            cases: Box::new(|_| {
+                let mut v = Vec::new();
+                for h in 1..=4usize {
+                    for r in 0..=6usize {
+                        if h != r && r > 0 {
+                            v.push(BcfMismatchCase { header_samples: h, record_samples: r, bgzf: (h + r) % 2 == 0 });
+                        }
+                    }
+                }
+                v
+            }),
+            eval: Box::new(eval_bcf_mismatch),
         }),
         Box::new(EnumPart {
             name: "saved-inputs",
